@@ -50,6 +50,38 @@ func spareCap(v reflect.Value) {
 	}
 }
 
+// emptyNonNil replaces every nil slice and map reachable from v by an empty non-nil one (the shape the
+// constructors NewNode / NewNodeList / NewDocument produce); the content is unchanged.
+func emptyNonNil(v reflect.Value) {
+	switch v.Kind() {
+	case reflect.Ptr:
+		if !v.IsNil() {
+			emptyNonNil(v.Elem())
+		}
+	case reflect.Struct:
+		for i := 0; i < v.NumField(); i++ {
+			if v.Type().Field(i).IsExported() {
+				emptyNonNil(v.Field(i))
+			}
+		}
+	case reflect.Slice:
+		if !v.CanSet() {
+			return
+		}
+		if v.IsNil() {
+			v.Set(reflect.MakeSlice(v.Type(), 0, 0))
+			return
+		}
+		for i := 0; i < v.Len(); i++ {
+			emptyNonNil(v.Index(i))
+		}
+	case reflect.Map:
+		if v.CanSet() && v.IsNil() {
+			v.Set(reflect.MakeMap(v.Type()))
+		}
+	}
+}
+
 // mutateAll applies every leaf mutator of a (one after the other) and reports the first that changes
 // b's snapshot. Appends within spare capacity are exercised by the "[+]" leaves.
 func mutateAll(t *rapid.T, a, b proto.Message) string {
@@ -91,6 +123,10 @@ func c12CopyProperty(t *rapid.T) {
 	}
 	if rapid.Bool().Draw(t, "spare") {
 		spareCap(reflect.ValueOf(src))
+	}
+	if rapid.IntRange(0, 2).Draw(t, "emptyNonNil") == 0 {
+		emptyNonNil(reflect.ValueOf(src))
+		hx.Class("empty_non-nil_collections")
 	}
 	name := string(src.ProtoReflect().Descriptor().Name())
 	m := reflect.ValueOf(src).MethodByName("Copy")
